@@ -44,8 +44,8 @@ theorem DSymData.vPartial_far' (s : DSymData) {i j d : Nat}
   have ho : ¬ s.outOfRange i j d = true := by rw [outOfRange_iff]; omega
   rw [if_neg ho, if_neg (by omega), if_neg (by omega), if_neg (by omega)]
 
-namespace ValidSym
-variable {s : DSymData} (h : ValidSym s)
+namespace ValidTables
+variable {s : DSymData} (h : ValidTables s)
 include h
 
 theorem row (i : Nat) (hi : i < s.dim) : RowOK s.dset s.orbitRs (s.orbitIndex.getD i #[]) i := by
@@ -105,6 +105,22 @@ theorem rPartial_adj_eq_generic {i d : Nat} (hi : i < s.dim) (h1 : 1 ≤ d) (h2 
   have hi0 : i ≤ s.dset.dim := Nat.le_of_lt hi
   obtain ⟨k, _, hk, hr⟩ := r_generic_least h.set hi0 (show i + 1 ≤ s.dset.dim from hi) ⟨h1, h2⟩
   rw [s.view_eq, hr, h.rPartial_adj hi h1 h2, (h.rs_least hi h1 h2).unique hk]
+
+/-- `r` and `v` at `d` and at a chamber `e` of the same (i,i+1)-orbit, adjacent case -/
+theorem adj_const {i d e : Nat} (hi : i < s.dim) (h1 : 1 ≤ d) (h2 : d ≤ s.size)
+    (ho : Orb2 s.dset i (i + 1) d e) :
+    s.rPartial i (i + 1) e = s.rPartial i (i + 1) d ∧ s.vPartial i (i + 1) e = s.vPartial i (i + 1) d := by
+  have he := Orb2.range h.set (Nat.le_of_lt hi) (show i + 1 ≤ s.dset.dim from hi) ⟨h1, h2⟩ ho
+  have hix : s.ixAt i d = s.ixAt i e := (h.ixAt_eq_iff hi h1 h2 he.1 he.2).2 ho
+  rw [h.rPartial_adj hi he.1 he.2, h.rPartial_adj hi h1 h2, h.vPartial_adj hi he.1 he.2,
+    h.vPartial_adj hi h1 h2, hix]
+  exact ⟨rfl, rfl⟩
+
+end ValidTables
+
+namespace ValidSym
+variable {s : DSymData} (h : ValidSym s)
+include h
 
 /-- **all representations agree on `r`**: table-based = generic, for every in-range argument -/
 theorem rPartial_eq_generic {i j d : Nat} (hi : i ≤ s.dim) (hj : j ≤ s.dim) (h1 : 1 ≤ d) (h2 : d ≤ s.size) :
@@ -167,16 +183,6 @@ theorem mPartial_some {i j d : Nat} (hi : i ≤ s.dim) (hj : j ≤ s.dim) (h1 : 
   exact ⟨a, b, ha, hb, DSymData.mOf_some ha hb⟩
 
 /-! ### constancy on (i,j)-orbits -/
-
-/-- helper: `r` and `v` at `d` and at a neighbour `e` of `d` in the (i,j)-orbit, adjacent case -/
-theorem adj_const {i d e : Nat} (hi : i < s.dim) (h1 : 1 ≤ d) (h2 : d ≤ s.size)
-    (ho : Orb2 s.dset i (i + 1) d e) :
-    s.rPartial i (i + 1) e = s.rPartial i (i + 1) d ∧ s.vPartial i (i + 1) e = s.vPartial i (i + 1) d := by
-  have he := Orb2.range h.set (Nat.le_of_lt hi) (show i + 1 ≤ s.dset.dim from hi) ⟨h1, h2⟩ ho
-  have hix : s.ixAt i d = s.ixAt i e := (h.ixAt_eq_iff hi h1 h2 he.1 he.2).2 ho
-  rw [h.rPartial_adj hi he.1 he.2, h.rPartial_adj hi h1 h2, h.vPartial_adj hi he.1 he.2,
-    h.vPartial_adj hi h1 h2, hix]
-  exact ⟨rfl, rfl⟩
 
 theorem far_test {i j d : Nat} (hij : i + 1 < j ∨ j + 1 < i) (hi : i ≤ s.dim) (hj : j ≤ s.dim)
     (h1 : 1 ≤ d) (h2 : d ≤ s.size) :
